@@ -8,7 +8,7 @@ from hypothesis import strategies as st
 
 from core.outcome import Outcome, discard, observe
 from gen.selector_frames import build_frame, feature_names, selector_case
-from oracles.selector import abs_corr, cramer_tschuprow
+from oracles.selector import abs_corr, close, cramer_tschuprow, ge_close
 from props.c14_selectors import make_selector, reference_measures
 
 PID = "C15"
@@ -34,6 +34,7 @@ def strategy(tier):
         st.tuples(st.just("negate"), st.integers(0, 20)),
         st.tuples(st.just("negate"), st.integers(0, 20)),
         st.tuples(st.just("scale"), st.integers(0, 20), st.sampled_from([0.25, 2, 8, 1024, 2.0**-40, 2.0**40])),
+        st.tuples(st.just("scale_all"), st.sampled_from([2.0**-40, 2.0**-20, 2.0**10, 2.0**40])),  # every quantitative feature, same unit change
         st.tuples(st.just("rename"), st.integers(0, 20), st.integers(0, 10**6)),
         st.tuples(st.just("rows"), st.integers(0, 10**6)),
         st.tuples(st.just("columns"), st.integers(0, 10**6)),
@@ -46,6 +47,8 @@ def strategy(tier):
             "qual_measure": st.sampled_from(["default", "cramerv"]),
             "quant_filter": st.sampled_from(["spearman", "spearman", "pearson"]),
             "qual_filter": st.sampled_from(["tschuprowt", "cramerv"]),
+            "outlier": st.sampled_from(["none", "none", "none", "zscore", "zscore", "iqr"]),
+            "thresh_outlier": st.sampled_from([0.004, 0.01, 0.02, 0.06, 0.3]),
         }
     )
     return st.tuples(st.booleans().flatmap(lambda p: selector_case(planted=p)), cfg, st.lists(enc, min_size=1, max_size=3)).map(
@@ -64,7 +67,7 @@ def run_select(case, X, y, quant, qual):
 def tie_explains(base, other, measure):
     """True when the two selections differ only through features whose recomputed measures tie."""
     def tied(f):
-        return any(g != f and not math.isnan(measure.get(g, float("nan"))) and abs(measure[g] - measure[f]) <= 1e-9 * max(1.0, abs(measure[f])) for g in measure)
+        return any(g != f and not math.isnan(measure.get(g, float("nan"))) and close(measure[g], measure[f]) for g in measure)
 
     differing = set(base) ^ set(other)
     if differing:
@@ -97,7 +100,7 @@ def threshold_explains(base, other, X, X2, quant, qual, cfg, measure, n_best):
             return False
         absent_from, frame_absent, frame_present = (other, X2, X) if f in base else (base, X, X2)
         same = [g for g in absent_from if (g in quant) == (f in quant)]
-        better = [g for g in same if not math.isnan(measure[g]) and measure[g] >= measure[f] - 1e-9 * max(1.0, abs(measure[f]))]
+        better = [g for g in same if not math.isnan(measure[g]) and ge_close(measure[g], measure[f])]
         hit = False
         for g in better:
             ca, cp = assoc(frame_absent, f, g), assoc(frame_present, f, g)
@@ -140,7 +143,7 @@ def check_case(case) -> Outcome:
                 if math.isnan(mf):
                     out.label("planted-fails-prefilter")
                     continue
-                rivals = [g for g in same_type if g != f and not math.isnan(measure[g]) and measure[g] >= mf - 1e-9 * max(1.0, abs(mf))]
+                rivals = [g for g in same_type if g != f and not math.isnan(measure[g]) and ge_close(measure[g], mf)]
                 if not (f.startswith("x") and default_distance) and (len(rivals) >= n_best or any(g in base_list for g in rivals)):
                     # other features tie with (or beat) the planted one: which of them is returned is not fixed
                     out.label("tie_ambiguous")
@@ -152,7 +155,11 @@ def check_case(case) -> Outcome:
                 out.violate(sig, f"{f} ({planted} of the target) is not among the selected features {base_list} (n_best={n_best})")
 
     ranked = [f for f in sorted(measure, key=lambda f: (-(measure[f]) if not math.isnan(measure[f]) else float('inf')))]
-    for enc in case["encodings"]:
+    encodings = [list(e) for e in case["encodings"]]
+    if cfg.get("outlier", "none") != "none" and not regression and not any(e[0] == "scale_all" for e in encodings):
+        # an outlier pre-filter is a statement about the feature's own scale: always look at a change of unit
+        encodings.append(["scale_all", [2.0**-40, 2.0**40][case["key"] % 2]])
+    for enc in encodings:
         enc = list(enc)
         X2, y2 = X.copy(), y.copy()
         touched = None
@@ -162,6 +169,9 @@ def check_case(case) -> Outcome:
         elif enc[0] == "scale":
             touched = quant[enc[1] % len(quant)]
             X2[touched] = X2[touched] * enc[2]
+        elif enc[0] == "scale_all":
+            for q in quant:
+                X2[q] = X2[q] * enc[1]
         elif enc[0] == "rename":
             touched = qual[enc[1] % len(qual)]
             values = sorted(v for v in set(X2[touched].dropna().tolist()))
@@ -185,7 +195,7 @@ def check_case(case) -> Outcome:
         other = list(res.value)
         if touched is not None and (touched in base_list or touched in ranked[: len(base_list) + 2]):
             out.nontrivial = True
-        if enc[0] in ("rows", "columns") and base_list:
+        if enc[0] in ("rows", "columns", "scale_all") and base_list:
             out.nontrivial = True
         if other == base_list:
             continue
